@@ -94,7 +94,7 @@ fn err_fields(e: &tower::ApiErr) -> Vec<(String, String)> {
     vec![("status".into(), format!("err {:?}", e.code())), ("message".into(), e.msg().to_string())]
 }
 
-fn run_cop(world: &World, api: &Arc<teos::api::internal::InternalAPI>, op: &COp) -> Vec<(String, String)> {
+fn run_cop(world: &World, api: &crate::tower::Api, op: &COp) -> Vec<(String, String)> {
     match op {
         COp::Register { user } => match tower::register(api, world.users[*user].1.serialize().to_vec()) {
             Ok(r) => fields(&["status", "slots", "start", "expiry"], vec!["ok".into(), r.available_slots.to_string(), r.subscription_start.to_string(), r.subscription_expiry.to_string()]),
